@@ -4,7 +4,14 @@ Correspondence (shared with C10, see dgram_common.py): the real client functions
 onaccept_udp / udp_done / onaccept_tcp / expire_connections on a real ssnet.Mux, and the real
 server.main loop (real runonce, DnsProxy, UdpProxy, dns_req / udp_open / udp_req, sweeps) are run on
 event scripts with a virtual clock and scripted sockets; the extracted Coq model (coq/Model/Dgram.v)
-is run on the same scripts and every step (outputs + tables) is compared."""
+is run on the same scripts and every step (outputs + tables) is compared.
+Composed system (coq/Model/DgramSys.v ystep, extracted into the driver): the real client functions and the real
+server.main are also run TOGETHER over two FIFO links (SystemRun) on random schedules mixing DNS queries, UDP
+datagrams and TCP accepts, any socket outcomes; the extracted model of the COMPOSITION is run on the same
+schedule and compared step by step (observation, state of the component that ran, both links).  Oracles on
+the real code alone: the server never fails (c11_system_server_never_raises), the client fails only in runs
+that violate no_stale_alloc_any, evaluated on the run itself (c11_system_never_raises); witnesses of F80 and
+F81 are replayed."""
 import os
 import sys
 
@@ -15,7 +22,8 @@ PROP = "C11"
 RULE = ("event scripts: mostly-valid life cycles (query->reply, query->error->retry->reply, duplicate/late replies, "
         "expiry at t-1/t/t+1 around the 30 s horizon, interleaved sources and destinations, UDP_CLOSE racing with data, "
         "ssnet.MAX_CHANNEL 1..8 forcing exhaustion and wrap-around) x payloads (empty, commas, NULs, 4096/4097 bytes) "
-        "plus a malformed stream (bad headers, frames for foreign channels, re-opened channels); a script is "
+        "plus a malformed stream (bad headers, frames for foreign channels, re-opened channels); composed "
+        "client+server runs: DNS-only and DNS/UDP/TCP mixed on random schedules with MAX_CHANNEL in {65535, 8, 3, 2, 1}; a script is "
         "non-trivial when it delivers a datagram or runs more than two steps; distinct by content hash of the script")
 TRUSTED_BASE = [
     "modelled, not verified: CPython dict insertion order, bytes %-formatting of ints, bytes.split(b',', 2), struct.pack range checks",
@@ -28,7 +36,8 @@ ASSUMPTIONS = [
     "same address-family constants on both ends (the UDP path passes listener.family through int())",
     "virtual time is integral seconds; client and server clocks are independent non-decreasing inputs",
     "c10_no_cross holds under NoStaleReuse (stated in Props/C10.v): an identifier is not re-allocated by the client while frames or server handlers of its previous incarnation are still alive",
-    "c11_server_no_crash_full: 16-bit identifiers (wire format), a conforming peer (UDP_OPEN carries a decimal family and is never sent on an open identifier, UDP_DATA = 'ip,port,'+payload with port <= 65535) and recvfrom peers of address size; without the last two the loop can only raise AssertionError / ValueError (c11_server_only_assert_value); UDP_OPEN, UDP_CLOSE, UDP_OPEN of one identifier inside ONE iteration ends the server with Fatal 'already open' (model and code agree; not reachable with the default MAX_CHANNEL)",
+    "c11_server_no_crash_full: 16-bit identifiers (wire format), a conforming peer (UDP_OPEN carries a decimal family and is never sent on an open identifier, UDP_DATA = 'ip,port,'+payload with port <= 65535) and recvfrom peers of address size; without the last two the loop can only raise AssertionError / ValueError (c11_server_only_assert_value); UDP_OPEN, UDP_CLOSE, UDP_OPEN of one identifier inside ONE iteration ended the server with Fatal 'already open' in the code as found: defect F80, repaired in the model (c11_server_never_fatal, c11_f80_refuted)",
+    "c11_system_never_raises / c10_system_never_raises: 1 <= MAX_CHANNEL <= 65535, listener events as the kernel delivers them (address literals without comma, 16-bit ports, sizes), recvfrom peers as sockets report them, and the system hypothesis no_stale_alloc_any (an identifier is not put on the wire for a new flow while an opening frame, a server handler or a down-link frame of its previous incarnation is in flight; F81 without it); TCP flows are represented only by their TCP_CONNECT frame (the stream core is C01/C06/C08)",
 ]
 
 
